@@ -10,6 +10,7 @@ import (
 	"strconv"
 	"strings"
 
+	webdav "github.com/emersion/go-webdav"
 	"github.com/emersion/go-webdav/verifmc/engine"
 	"github.com/emersion/go-webdav/verifmc/harness"
 	"github.com/emersion/go-webdav/verifmc/indep"
@@ -297,6 +298,25 @@ func init() {
 				v.S.Sample(map[string]interface{}{"state": v.State.Canon(), "request": v.Req.String(), "status": v.Resp.Status, "after": v.After.Canon()})
 			}
 		})
+		// real histories from the empty directory (breadth-first, canonical-state hashing)
+		c01Histories(r, quick)
+		harness.Cleanup()
+	})
+	registerReplay("C01-history", func(raw json.RawMessage) (bool, string) {
+		var c c01HistCase
+		if err := json.Unmarshal(raw, &c); err != nil {
+			return false, err.Error()
+		}
+		defer harness.Cleanup()
+		tree, root, h, clause, detail, _ := c01ReplayHistory(c.History)
+		if clause != "" {
+			return false, clause + " " + detail
+		}
+		mroot := harness.NewDir("mat-")
+		harness.Materialise(mroot, tree)
+		a, b := c01Probe(h, tree), c01Probe(&webdav.Handler{FileSystem: webdav.LocalFileSystem(mroot)}, tree)
+		_ = root
+		return a == b, fmt.Sprintf("history instance vs materialised equal=%v; final tree %s", a == b, tree.Canon())
 	})
 	registerReplay("C01", func(raw json.RawMessage) (bool, string) {
 		var c fsCase
